@@ -36,10 +36,14 @@ Definition show_run (names : list path) (s : fs) (l : list step) : string :=
 
 Inductive case :=
 | CRepl (names : list path) (s : fs) (target : path) (ops : list op)   (* a history of replacements *)
-| CMove (names : list path) (s : fs) (src dst tD tS : path).            (* one cross-device moveTo *)
+| CMove (names : list path) (s : fs) (src dst tD tS : path)             (* one cross-device moveTo *)
+| CFault (names : list path) (s : fs) (target : path) (o : op) (j : nat) (* write stores j bytes, then OSError *)
+| CMoveFault (names : list path) (s : fs) (src dst tD : path) (j : nat).
 
 Definition run_show (c : case) : string :=
   match c with
   | CRepl names s target ops => show_run names s (progs target ops)
   | CMove names s src dst tD tS => show_run names s (move_prog s src dst tD tS)
+  | CFault names s target o j => show_run names s (prog_fault target o j)
+  | CMoveFault names s src dst tD j => show_run names s (move_fault s src dst tD j)
   end.
